@@ -65,9 +65,9 @@ def export_plan_full(ctx):
     if ctx.tier == "quick":
         return [("GenAreaGrid4.cfg", 230, "g4"), ("GenAreaGrid4N.cfg", 130, "g4n"), ("GenAreaGrid4T.cfg", 130, "g4t"),
                 ("GenAreaGrid7N.cfg", 70, "g7n"), ("GenAreaGridTile4.cfg", 40, "tile4")]
-    return [("GenAreaGrid4.cfg", 3500, "g4"), ("GenAreaGrid4N.cfg", 2000, "g4n"), ("GenAreaGrid4T.cfg", 2000, "g4t"),
-            ("GenAreaGrid5.cfg", 1500, "g5"), ("GenAreaGrid5N.cfg", 1000, "g5n"), ("GenAreaGrid5T.cfg", 1000, "g5t"),
-            ("GenAreaGrid7N.cfg", 800, "g7n"), ("GenAreaGridTile4.cfg", 250, "tile4")]
+    return [("GenAreaGrid4.cfg", 2600, "g4"), ("GenAreaGrid4N.cfg", 1500, "g4n"), ("GenAreaGrid4T.cfg", 1500, "g4t"),
+            ("GenAreaGrid5.cfg", 1200, "g5"), ("GenAreaGrid5N.cfg", 800, "g5n"), ("GenAreaGrid5T.cfg", 800, "g5t"),
+            ("GenAreaGrid7N.cfg", 600, "g7n"), ("GenAreaGridTile4.cfg", 200, "tile4")]
 
 
 def run_tlc_jobs(ctx):
@@ -337,7 +337,8 @@ def run(ctx):
             seen.add(k)
             ctx.sample({k2: c[k2] for k2 in ("G", "ways", "roles", "exp", "variants", "tile") if k2 in c}, cap=10)
     ctx.assumptions = [
-        "grid 0..G (G=4, thorough also 5), <= 3 catalogue rings and <= 26 segments per case; embeddings into Locations are affine with "
+        "grid 0..G (G=4, thorough also 5; G=7 for chains of up to 4 nested rectangles), <= 3 (4) catalogue rings and <= 26 segments "
+        "per case; embeddings into Locations are affine with "
         "positive factors (1e-3 degree steps, 3x7 units below +2^29, unit steps above -2^29, the whole +-2^29 range, around 0/0)",
         "region equality and 'inner inside outer' are evaluated on 2G x 2G generic sample points (exact per point); together with "
         "'ring segments = input segments' this decides region equality exactly for the catalogue's shapes",
